@@ -71,6 +71,30 @@ PROPS["C07"] = {
     "level_text": "The real follower-side code (watchLoop, handleWatchEvent, checkKeyAndReelect, attemptAcquireWithRetry) and leader-side code run together symbolically; the vacancy instant is a solver variable, so one exploration covers every placement of the vacancy relative to the retries of the leftover acquisition round; a monitor inside the Metrics.SetIsLeader callback observes every change of the leadership flag itself.",
     "level_note": "Reductions R1/R2; scheduler decisions are offered whenever an enabled goroutine is parked at a store-operation leg, goroutines woken by timers or channels otherwise run in creation order.",
 }
+PROPS["C04"] = {
+    "groups": [{"run": "^vpH_C04_T_"}],
+    "bounds": {"quick": "a real leader (built through NewElection/Start) whose record is then left alone, overwritten with ARBITRARY bytes (abstract JSON: every parse outcome symbolic), deleted, replaced by another instance's payload or by a later incarnation with the same id; caller leader or already demoted; context live, cancelled, or with a 100ms deadline; the read fails with an error or (with a deadline) never answers; ValidateToken, ValidateTokenOrDemote, and the background validationLoop (record taken by a later incarnation while refreshes hang) over 6 intervals"},
+    "outside": "records changing DURING the Get (the read is one linearisable store operation in the stub); hang with a context that never expires (the call then blocks, which the statement does not cover)",
+    "assumptions": ["json.Unmarshal into map[string]interface{} on arbitrary bytes: error flag, presence, string-ness and value of the id and token members are independent symbolic values"],
+    "level_text": "validateToken (with its inner Get goroutine and select), ValidateToken, ValidateTokenOrDemote, handleValidationFailure and validationLoop run symbolically on every record shape: the verdict is compared with an oracle over the abstract record that the store returned at the read's linearisation point, for all byte strings at once through the JSON abstraction.",
+    "level_note": "JSON over-approximation (sound for these safety obligations); one validation call per path; reductions R1/R2.",
+}
+PROPS["C10"] = {
+    "groups": [{"run": "^vpH_C10_T_"}],
+    "bounds": {"quick": "safety: a candidate with symbolic priority (0..1000) and takeover flag (valid configurations) next to a live record of another instance with symbolic stored priority, or arbitrary bytes; optionally a third party replaces the record (symbolic priority) at ANY store-operation leg of the candidate; start attempt, watcher start and first acquisition round (300ms); audit of the complete store log. Promptness: higher-priority candidate started at a symbolic instant within one heartbeat next to an incumbent heartbeating every H=1s, store latency zero"},
+    "outside": "more than one interfering write; latencies above zero in the promptness scenario; 3-5 real instances (other instances are the environment, see DESIGN section 3)",
+    "assumptions": [],
+    "level_text": "attemptAcquire/attemptPriorityTakeover/handleWatchEvent run symbolically with priorities, flag and record contents as solver variables and a third party schedulable between any two store operations; the oracle over the store's mutation log (replacement only if enabled, strictly higher than the record actually replaced, against the revision read) is decided by z3 for all priority assignments including ties.",
+    "level_note": "One real candidate against environment writers (assume-guarantee structure of DESIGN section 3); reductions R1/R2.",
+}
+PROPS["C13"] = {
+    "groups": [{"run": "^vpH_C13_T_"}],
+    "bounds": {"quick": "record value = arbitrary bytes through the JSON abstraction (empty, unparsable for the struct and/or the generic map, wrong field types, missing fields, any id/token/priority); follower and takeover-enabled candidate starting next to it (700ms: start attempt, watcher, acquisition round, periodic check); rewrite while following then removal (must still take over); leader whose record is overwritten at a symbolic instant (demotion within the C03 bound); call depth bound 60 and 3*10^6 SSA steps per path as unwinding assertions"},
+    "outside": "very large values (the abstraction has no size); several successive rewrites",
+    "assumptions": [],
+    "level_text": "Every function that reads the record (handleWatchEvent, checkKeyAndReelect, attemptPriorityTakeover, heartbeat conflict path) runs symbolically on an abstract record whose parse results are solver variables, so all byte strings are covered at once; panics, unbounded recursion (call-depth assertion) and runaway loops (step budget) are events of the executor, and claims over a foreign live record are checked against the store.",
+    "level_note": "JSON over-approximation; bounds above; reductions R1/R2.",
+}
 PROPS["S00"] = {"groups": [{"run": "^vpH_S00_"}], "level_text": "engine smoke test", "level_note": ""}
 
 NOT_APPLICABLE = {}
